@@ -180,7 +180,14 @@ static bool scen_reader(void) {
 	return true;
 }
 
+/* Every execution stands for a fresh process: library globals that are resolved lazily on first use are put back to the value they had when
+ * main() started. On the pinned tree the CRC dispatch pointer is resolved by a constructor before main(), so this changes nothing there; a
+ * tree that resolves it on the first call does so inside whichever thread computes the first checksum, in every execution (seed R7-C14). */
+typedef uint32_t (*crc_fp_t)(const uint8_t *, size_t);
+extern crc_fp_t my_crc32c;
+static crc_fp_t g_crc_initial;
 static bool body(void) {
+	my_crc32c = g_crc_initial;
 	g_oracle[0] = 0; g_order_sig = 7;
 	if (!strcmp(SCEN, "pool-ordered")) return scen_pool(true, 1, false);
 	if (!strcmp(SCEN, "pool-unordered")) return scen_pool(false, 1, false);
@@ -289,6 +296,7 @@ static void explore(const uint8_t *prefix, int n, int pre, int spur) {
 static void emit_item(const uint8_t *c, int n, int pre, int spur) { item_push(c, n, pre, spur, false); }
 
 int main(int argc, char **argv) {
+	g_crc_initial = my_crc32c;
 	vh_init(argc, argv);
 	vs_fatal_hook = fatal_hook; vs_watch_fn = thread_worker; writer_input_init();
 	static char dirb[256]; snprintf(dirb, sizeof dirb, "%s/vs.%d", access("/dev/shm", W_OK) == 0 ? "/dev/shm" : "/var/tmp", (int) getpid()); mkdir(dirb, 0700); g_tmpdir = dirb;
